@@ -153,39 +153,43 @@ def _worker_confused(items, base):
     cnt, oc = out["counters"], out["outcomes"]
     for name in items:
         th = _CTOR[name]
-        for k in range(gen_ctor.leaf_count(th)):
-            cnt["transitions"] = cnt.get("transitions", 0) + 1
-            try:
-                w = gen_ctor.wrap(gen_ctor.confused(th, k)[0])
-            except drive.PT_ERRORS:
-                oc["confused:refused_when_built"] = oc.get("confused:refused_when_built", 0) + 1
-                continue
-            except Exception as e:
-                out["violations"].append({
-                    "driver": "ctor-confused", "size": 1, "title": "ctor %s with leaf %d of the other type: building died with %r" % (name, k, e),
-                    "recipe": {"constructor": name, "confused": k}, "cfg": rb.Cfg(6, "A").to_json(), "issue": ["build", 0, repr(e)[:80]],
-                    "features": {"kind": "crash", "driver": "ctor-confused", "static": True}})
-                continue
-            for v in (6, 10):
-                cfg = rb.Cfg(v, "A")
+        for kind in ("other", "none"):
+            for k in range(gen_ctor.leaf_count(th)):
+                cnt["transitions"] = cnt.get("transitions", 0) + 1
                 try:
-                    text = rb.compile_cfg(w, cfg)
+                    w = gen_ctor.wrap(gen_ctor.confused(th, k, kind)[0])
                 except drive.PT_ERRORS:
-                    oc["confused:refused_when_compiled"] = oc.get("confused:refused_when_compiled", 0) + 1
+                    oc["confused:refused_when_built"] = oc.get("confused:refused_when_built", 0) + 1
                     continue
                 except Exception as e:
-                    oc["confused:compile_died"] = oc.get("confused:compile_died", 0) + 1
-                    continue          # C20's business
-                p, an = analyse_text(text, cfg)
-                cnt["traces_validated"] = cnt.get("traces_validated", 0) + 1
-                cnt["abstract_states"] = cnt.get("abstract_states", 0) + an.states
-                oc["confused:accepted"] = oc.get("confused:accepted", 0) + 1
-                for rid, ln, msg in an.issues[:1]:
                     out["violations"].append({
-                        "driver": "ctor-confused", "size": 1,
-                        "title": "ctor %s with leaf %d of the other type is accepted: %s at line %d of %s (v%d)" % (name, k, msg, ln, rid, v),
-                        "recipe": {"constructor": name, "confused": k}, "cfg": cfg.to_json(), "issue": [rid, ln, msg], "teal": text,
-                        "features": {"kind": "type", "driver": "ctor-confused", "static": True}})
+                        "driver": "ctor-confused", "size": 1, "title": "ctor %s with leaf %d replaced (%s): building died with %r" % (name, k, kind, e),
+                        "recipe": {"constructor": name, "confused": k, "kind": kind}, "cfg": rb.Cfg(6, "A").to_json(), "issue": ["build", 0, repr(e)[:80]],
+                        "features": {"kind": "crash", "driver": "ctor-confused", "static": True}})
+                    continue
+                for v in (6, 10):
+                    cfg = rb.Cfg(v, "A")
+                    try:
+                        text = rb.compile_cfg(w, cfg)
+                    except drive.PT_ERRORS:
+                        oc["confused:refused_when_compiled"] = oc.get("confused:refused_when_compiled", 0) + 1
+                        continue
+                    except Exception as e:
+                        oc["confused:compile_died"] = oc.get("confused:compile_died", 0) + 1
+                        continue          # C20's business
+                    p, an = analyse_text(text, cfg)
+                    cnt["traces_validated"] = cnt.get("traces_validated", 0) + 1
+                    cnt["abstract_states"] = cnt.get("abstract_states", 0) + an.states
+                    oc["confused:accepted"] = oc.get("confused:accepted", 0) + 1
+                    issues = list(an.issues[:1])
+                    if not issues and an.main_return_heights - {1}:
+                        issues.append(("main", 0, "the main routine returns with %s values" % sorted(an.main_return_heights)))
+                    for rid, ln, msg in issues:
+                        out["violations"].append({
+                            "driver": "ctor-confused", "size": 1,
+                            "title": "ctor %s with leaf %d replaced (%s) is accepted: %s at line %d of %s (v%d)" % (name, k, kind, msg, ln, rid, v),
+                            "recipe": {"constructor": name, "confused": k, "kind": kind}, "cfg": cfg.to_json(), "issue": [rid, ln, msg], "teal": text,
+                            "features": {"kind": "type", "driver": "ctor-confused", "static": True}})
         cnt["states"] = cnt.get("states", 0) + 1
     return out
 
@@ -296,13 +300,13 @@ def replay(case):
         th = dict(gen_ctor.entries())[case["recipe"]["constructor"]]
         if "confused" in case["recipe"]:
             try:
-                text = rb.compile_cfg(gen_ctor.wrap(gen_ctor.confused(th, case["recipe"]["confused"])[0]), cfg)
+                text = rb.compile_cfg(gen_ctor.wrap(gen_ctor.confused(th, case["recipe"]["confused"], case["recipe"].get("kind", "other"))[0]), cfg)
             except drive.PT_ERRORS as e:
                 print("refused now:", e)
                 return False
             p, an = analyse_text(text, cfg)
-            print("issues:", an.issues[:3])
-            return bool(an.issues)
+            print("issues:", an.issues[:3], sorted(an.main_return_heights))
+            return bool(an.issues) or bool(an.main_return_heights - {1})
         text = rb.compile_cfg(gen_ctor.wrap(th()), cfg)
         p, an = analyse_text(text, cfg)
         print("issues:", an.issues[:3], "main return heights:", sorted(an.main_return_heights))
